@@ -110,6 +110,57 @@ def g_expr(x, enc, intern) -> str:
   raise ValueError(x)
 
 
+def is_const_tuple(x) -> bool:
+  return x[0] == "tuple" and all(a[0] == "const" or is_const_tuple(a) for a in x[1])
+
+
+def hoist_constants(nparams, body, ret):
+  """CPython folds a tuple display of constants into ONE object per code object (co_consts): equal
+  constant tuples of a function are the same object.  The Gallina program says so explicitly: every
+  distinct constant tuple becomes a local bound before the body (indices of the other locals shift)."""
+  table = {}   # repr -> index among the hoisted
+  hoisted = []
+
+  def go(x):
+    k = x[0]
+    if is_const_tuple(x):
+      inner = ("tuple", [go(a) for a in x[1]])
+      key = repr(x)
+      if key not in table:
+        table[key] = len(hoisted)
+        hoisted.append(inner)
+      return ("cvar", table[key])
+    if k == "var":
+      return x
+    if k in ("call", "partial"):
+      return (k, x[1], [go(a) for a in x[2]], {n: go(v) for n, v in x[3].items()})
+    if k in ("list", "tuple"):
+      return (k, [go(a) for a in x[1]])
+    if k == "dict":
+      return (k, {kk: go(v) for kk, v in x[1].items()})
+    return x
+
+  body2 = [go(b) for b in body]
+  ret2 = go(ret)
+  nh = len(hoisted)
+
+  def shift(x):
+    k = x[0]
+    if k == "cvar":
+      return ("var", nparams + x[1])
+    if k == "var":
+      return ("var", x[1] if x[1] < nparams else x[1] + nh)
+    if k in ("call", "partial"):
+      return (k, x[1], [shift(a) for a in x[2]], {n: shift(v) for n, v in x[3].items()})
+    if k in ("list", "tuple"):
+      return (k, [shift(a) for a in x[1]])
+    if k == "dict":
+      return (k, {kk: shift(v) for kk, v in x[1].items()})
+    return x
+
+  return [shift(h) for h in hoisted] + [shift(b) for b in body2], shift(ret2)
+
+
 def write_module(idx, text):
   os.makedirs(MODDIR, exist_ok=True)
   path = os.path.join(MODDIR, f"c11_prog_{os.getpid()}_{idx}.py")
@@ -206,8 +257,9 @@ def core_case(rng, res, intern, stream, idx):
     try:
       enc = l2.Encoder(intern)
       args_g = g_list([enc.ref(a) for a in args])
-      n_args_nodes = len(enc.nodes)
-      prog_g = f"(mkprog {g_list([g_expr(b, enc, intern) for b in body])} {g_expr(ret, enc, intern)})"
+      arg_heap = enc.heap()
+      hbody, hret = hoist_constants(nparams, body, ret)
+      prog_g = f"(mkprog {g_list([g_expr(b, enc, intern) for b in hbody])} {g_expr(hret, enc, intern)})"
       # the argument objects occupy the first ids of both observed heaps and of the model's start heap
       enc_c = l2.Encoder(intern)
       [enc_c.ref(a) for a in args]
@@ -217,7 +269,7 @@ def core_case(rng, res, intern, stream, idx):
       py_root = "None" if direct is None else f"(Some {enc_p.ref(direct)})"
       for e2 in (enc_c, enc_p):
         enc.fns.update(e2.fns)
-      stream.add(f"(mkcase {enc.sigenv()} {args_g} {prog_g} {enc_c.heap()} {cfg_root} {enc_p.heap()} {py_root})",
+      stream.add(f"(mkcase {enc.sigenv()} {arg_heap} {args_g} {prog_g} {enc_c.heap()} {cfg_root} {enc_p.heap()} {py_root})",
                  meta=replay)
     except (TypeError, l2.Cyclic) as e:
       res.count("corr-skipped")
@@ -266,22 +318,27 @@ def exempted(k):
   return l2.fd(x=helper(k), y=l2.fa(k))
 
 
-@auto_config.auto_config
-def closure_and_lambda(k):
-  base = l2.fa(k)
-  def inner(z):
-    return l2.Ka(p=base, q=z)
-  return l2.fd(x=inner(1), y=inner(2), z=(lambda w: l2.fc(w, base))(k))
+def make_closure(base_k, shared):
+  @auto_config.auto_config
+  def with_free_vars(z):
+    return l2.Ka(p=base_k, q=[z, shared, l2.fa(shared)])
+  return with_free_vars
+
+
+closure_fn = make_closure(42, [1, 2])
+
+
+top_lambda = auto_config.auto_config(lambda k: l2.fd(z=l2.fa(k), y=[l2.Ka(p=k), l2.fc(k, k)]))
 
 
 class Holder:
-  @staticmethod
   @auto_config.auto_config
+  @staticmethod
   def static_fixture(k):
     return l2.fa(l2.Ka(p=k))
 
-  @classmethod
   @auto_config.auto_config
+  @classmethod
   def class_fixture(cls, k):
     return l2.fd(name=cls.__name__, v=l2.fa(k))
 
@@ -304,6 +361,192 @@ def partial_and_factory(k):
 '''
 
 
+EXT_HEADER = ("import functools\nimport fiddle as fdl\nfrom fiddle.experimental import auto_config\n"
+              "from fiddle._src.experimental import with_tags as wt\nfrom fiddle import arg_factory\n"
+              "from harness import l2\n\n\n"
+              "@auto_config.auto_config\ndef child(n, extra=3):\n  return l2.Ka(p=n, q=[n, extra])\n\n\n"
+              "@auto_config.auto_config(experimental_always_inline=False)\ndef child_ni(n, extra=4):\n"
+              "  return l2.Kb(p=(n, 't'), q=extra)\n\n\n"
+              "def plain_helper(x, y=0):\n  return [x, y, x]\n\n\n")
+
+
+class ExtGen:
+  """Random programs over the constructs outside the modelled core, emitted as source text only."""
+
+  def __init__(self, rng, control_flow):
+    self.rng = rng
+    self.cf = control_flow
+    self.vars = []
+    self.counts = {}
+
+  def note(self, k):
+    self.counts[k] = self.counts.get(k, 0) + 1
+
+  def atom(self):
+    rng = self.rng
+    if self.vars and rng.random() < 0.5:
+      return rng.choice(self.vars)
+    return repr(rng.choice([1, 2, "s", None, 2.5, (), (1, 2)]))
+
+  def expr(self, depth=0):
+    rng = self.rng
+    r = rng.random()
+    if depth >= 3 or r < 0.18:
+      return self.atom()
+    sub = lambda: self.expr(depth + 1)
+    if r < 0.30:
+      self.note("call-keyword")
+      fn = rng.choice(["fa", "Ka", "Kb", "fg"])
+      first = {"fa": "a", "Ka": "p", "Kb": "p", "fg": "u"}[fn]
+      second = {"fa": "b", "Ka": "q", "Kb": "q", "fg": "w"}[fn]
+      return f"l2.{fn}({first}={sub()}" + (f", {second}={sub()})" if rng.random() < 0.5 else ")")
+    if r < 0.40:
+      self.note("call-positional")
+      return rng.choice([f"l2.fa({sub()}, {sub()})", f"l2.fb({sub()}, {sub()}, {sub()}, k={sub()})",
+                         f"l2.fe({sub()})", f"l2.fc({sub()}, {sub()})"])
+    if r < 0.50:
+      self.note("star-splat")
+      items = ", ".join(sub() for _ in range(rng.randint(0, 3)))
+      return rng.choice([f"l2.fc(*[{items}])", f"l2.fb({sub()}, {sub()}, *[{items}])",
+                         f"l2.fc({sub()}, *({items}{',' if items else ''}))"])
+    if r < 0.60:
+      self.note("starstar-splat")
+      d = "{" + ", ".join(f"{k!r}: {sub()}" for k in rng.sample(["m", "n", "k"], rng.randint(0, 2))) + "}"
+      return rng.choice([f"l2.fd(**{d})", f"l2.fd(z={sub()}, **{d})", f"l2.fb({sub()}, y={sub()}, **{d})"])
+    if r < 0.68:
+      self.note("nested-auto-config")
+      return rng.choice([f"child({sub()})", f"child({sub()}, extra={sub()})", f"child_ni({sub()})",
+                         f"child_ni(n={sub()}, extra={sub()})"])
+    if r < 0.73:
+      self.note("exempt")
+      return f"auto_config.exempt(plain_helper)({self.atom()}, y={self.atom()})"
+    if r < 0.78:
+      self.note("with_tags")
+      return rng.choice([f"l2.Ka(p=wt.with_tags({self.atom()}, l2.TagA))",
+                         f"l2.fa(a=wt.with_tags({sub()}, [l2.TagA, l2.TagB]), b={sub()})"])
+    if r < 0.84:
+      self.note("functools.partial")
+      return rng.choice([f"functools.partial(l2.fa, {sub()})", f"functools.partial(l2.Ka, q={sub()})",
+                         f"functools.partial(l2.fg, {sub()}, w={sub()})"])
+    if r < 0.88:
+      self.note("arg_factory.partial")
+      return f"arg_factory.partial(l2.fa, b=l2.Ka)"
+    if r < 0.93:
+      self.note("container")
+      return rng.choice([f"[{sub()}, {sub()}]", f"({sub()}, {sub()})", "{" + f"'a': {sub()}, 3: {sub()}" + "}"])
+    if self.cf:
+      self.note("comprehension")
+      return rng.choice([f"[l2.fa(i, {self.atom()}) for i in range({rng.randint(0, 3)})]",
+                         "{" + f"str(i): l2.Ka(p=i) for i in range({rng.randint(0, 2)})" + "}",
+                         f"[l2.fc(i, j) for i in range(2) for j in range({rng.randint(1, 2)}) if i != j]"])
+    return self.atom()
+
+  def program(self, name):
+    rng = self.rng
+    nparams = rng.randint(0, 2)
+    params = [f"p{i}" for i in range(nparams)]
+    with_default = rng.random() < 0.4
+    sig = ", ".join(params + (["dflt=l2.Color.RED if hasattr(l2, 'Color') else 1"] if False else []) +
+                    (["dflt=(1, 2)"] if with_default else []))
+    self.vars = list(params) + (["dflt"] if with_default else [])
+    deco = "@auto_config.auto_config" + ("(experimental_allow_control_flow=True)" if self.cf else "")
+    lines = [deco, f"def {name}({sig}):"]
+    for j in range(rng.randint(0, 4)):
+      r = rng.random()
+      if self.cf and r < 0.2:
+        self.note("if")
+        v = f"v{j}"
+        cond = rng.choice(["True", "False"] + ([f"{params[0]} is None", f"bool({params[0]})"] if params else []))
+        lines += [f"  if {cond}:", f"    {v} = {self.expr(1)}", "  else:", f"    {v} = {self.expr(1)}"]
+      elif self.cf and r < 0.35:
+        self.note("for")
+        v = f"v{j}"
+        lines += [f"  {v} = []", f"  for i{j} in range({rng.randint(0, 3)}):",
+                  f"    {v}.append(l2.fa(i{j}, {self.atom()}))"]
+      else:
+        v = f"v{j}"
+        lines.append(f"  {v} = {self.expr(0)}")
+      self.vars.append(v)
+    ret = self.expr(0)
+    if not ret.startswith(("l2.", "child")) or ret.startswith("l2.TagA"):
+      ret = f"l2.fd(r={ret}, s={self.atom()})"
+    lines.append(f"  return {ret}")
+    return "\n".join(lines), nparams
+
+
+def random_extended(rng, res, n):
+  """Oracle-only stream: random programs over splats, nested auto_config functions, exempt(),
+  with_tags(), partials, defaults and (with the option on) if / for / comprehensions."""
+  per_module = 40
+  idx = 0
+  while idx < n:
+    gens, texts = [], []
+    for k in range(min(per_module, n - idx)):
+      g = ExtGen(rng, control_flow=rng.random() < 0.4)
+      src, nparams = g.program(f"prog{k}")
+      gens.append((g, src, nparams))
+      texts.append(src)
+    text = EXT_HEADER + "\n\n\n".join(texts) + "\n"
+    try:
+      mod = write_module(f"rext{idx}", text)
+    except Exception as e:  # pylint: disable=broad-except
+      # find the offending program by decorating one at a time
+      mod = None
+      for k, (g, src, nparams) in enumerate(gens):
+        try:
+          write_module(f"rext{idx}_{k}", EXT_HEADER + src + "\n")
+        except Exception as e2:  # pylint: disable=broad-except
+          res.failures.append(Failure(None, f"C11 rext: decorating a supported program raised "
+                                            f"{type(e2).__name__}: {e2}", {"source": src}))
+      idx += len(gens)
+      continue
+    for k, (g, src, nparams) in enumerate(gens):
+      fn = getattr(mod, f"prog{k}")
+      args = tuple(rng.choice([7, "arg", [1, 2], None]) for _ in range(nparams))
+      res.evaluations += 1
+      res.count("program:random-extended")
+      for c, v in g.counts.items():
+        res.count("construct:" + c, v)
+      replay = {"label": f"rext#{idx + k}", "source": src, "args": repr(args)}
+      res.nontrivial(src + repr(args))
+      del common.CALL_LOG[:]
+      try:
+        cfg, cfg_err = fn.as_buildable(*args), None
+      except Exception as e:  # pylint: disable=broad-except
+        cfg, cfg_err = None, f"{type(e).__name__}: {e}"
+      logged = len(common.CALL_LOG)
+      try:
+        direct, py_err = fn(*args), None
+      except Exception as e:  # pylint: disable=broad-except
+        direct, py_err = None, f"{type(e).__name__}: {e}"
+      try:
+        undecorated = fn.func(*args) if hasattr(fn, "func") else direct
+        raw_err = None
+      except Exception as e:  # pylint: disable=broad-except
+        undecorated, raw_err = None, f"{type(e).__name__}: {e}"
+      problems = []
+      if logged and "exempt" not in g.counts:
+        problems.append("as_buildable invoked a configurable callable")
+      if (py_err is None) != (raw_err is None) or (direct is not None and undecorated is not None and
+                                                    built_canon(direct) != built_canon(undecorated)):
+        problems.append("calling the decorated function differs from calling the undecorated function")
+      if cfg_err is None and py_err is None:
+        try:
+          built = fdl.build(cfg)
+          if built_canon(built) != built_canon(direct):
+            problems.append("build(as_buildable(*args)) differs from fn(*args) in values, types or sharing")
+            replay = dict(replay, built=repr(built_canon(built))[:700], direct=repr(built_canon(direct))[:700])
+        except Exception as e:  # pylint: disable=broad-except
+          problems.append(f"build(as_buildable(*args)) raised {type(e).__name__}: {e}")
+      elif (cfg_err is None) != (py_err is None):
+        problems.append(f"as_buildable: {cfg_err}; direct call: {py_err}")
+      else:
+        res.count("both-raise")
+      for pr in problems[:1]:
+        res.failures.append(Failure(None, f"C11 rext#{idx + k}: {pr}", replay))
+    idx += len(gens)
+
+
 def extended_cases(rng, res):
   """Oracle-only programs for the constructs outside the modelled subset."""
   mod = write_module("ext", EXTENDED)
@@ -311,7 +554,8 @@ def extended_cases(rng, res):
       ("splats", mod.splats, (1, [2])),
       ("nested", mod.nested, ()), ("nested", mod.nested, (5,)),
       ("exempted", mod.exempted, (4,)),
-      ("closure_and_lambda", mod.closure_and_lambda, (3,)),
+      ("closure", mod.closure_fn, (3,)),
+      ("top_lambda", mod.top_lambda, (3,)),
       ("static_fixture", mod.Holder.static_fixture, (2,)),
       ("class_fixture", mod.Holder.class_fixture, (2,)),
       ("control_flow", mod.control_flow, (3, True)), ("control_flow", mod.control_flow, (0, False)),
@@ -346,8 +590,10 @@ def run(tier: str, seed: int) -> Result:
               "/ keyword arguments over 7 callables incl. positional-only, *args and **kwargs signatures, list / "
               "tuple / dict literals, functools.partial), written to real source files and decorated with "
               "auto_config; plus 12 fixed programs for splats, nested auto_config functions (inlined or not), "
-              "exempt(), closures, lambdas, static/class methods and control flow; non-trivial = a local holding a "
-              "call or container; distinct by (source, arguments)")
+              "exempt(), closures, lambdas, static/class methods and control flow; plus random programs over "
+              "*splat / **splat calls, nested auto_config functions (inlined or not), exempt(), with_tags(), "
+              "functools.partial, arg_factory.partial, defaults, and (option on) if / for / comprehensions "
+              "(oracle only); non-trivial = a local holding a call or container; distinct by (source, arguments)")
   intern = common.Interner()
   stream = Stream("c11_programs",
                   "From Fiddle Require Import PySlice Sig ArgStore PyCall Heap Traverse Build Lang C11Check.",
@@ -359,6 +605,7 @@ def run(tier: str, seed: int) -> Result:
     for i in range(n):
       core_case(rng, res, intern, stream, i)
     extended_cases(rng, res)
+    random_extended(rng, res, 200 if tier == "quick" else 4000)
   finally:
     shutil.rmtree(MODDIR, ignore_errors=True)
   return res
